@@ -92,21 +92,28 @@ CLAIMED = {
          "Not yet obligations: the 'only if still empty' guards that make the end timestamps set-at-most-once, the teardown-while-RUNNING end time, and the "
          "closed-world frame over every writer of the four variables. Hooks (plugins/tasks) overwriting the variables and clock steps are outside.",
          "DESIGN.md §6 C10"),
- "C02": ("Proof obligations on the chain per-target outcome -> task-manager error -> transition error -> FSM cancel: in transitionTasks and "
-         "configureTasks (all paths, all error maps: loop invariant len(taskCriticalErrors) == number of errors whose task or role is critical) a "
-         "multi-target response yields an error exactly when a critical target failed and non-critical failures never do; handlerFunc runs the "
-         "transition body only for an event not yet cancelled and cancels the event on its error; leave_<state> reaches the task transition only "
-         "after both hook phases without a hook error.",
-         "Not under contract yet: the Transition.do bodies (wait on the state-changed channel), the DEPLOY wait loop, GetActiveTasks, the single-"
-         "response branch (one target: any error fails the transition - suspected finding, not yet replayed), executors, Mesos delivery, timeouts. "
-         "The command queue's answer is an unconstrained value.",
+ "C02": ("Proof obligations on the chain per-target outcome -> task-manager error -> transition error -> API error: CommandQueue.commit files a "
+         "response for every target, built from the send error for an unreachable one; workflow.GetActiveTasks selects on status ACTIVE alone "
+         "and Tasks.Filtered is complete (every accepted task is commanded); in transitionTasks and configureTasks a multi-target response yields "
+         "an error exactly when a critical target failed (loop invariant len(taskCriticalErrors) == number of critical errors), a single-target "
+         "response fails the transition only if that one task is critical, and nothing to command succeeds at once without enqueuing or waiting "
+         "(ConfigureTransition.do waits for the task manager only when it asked); handlerFunc runs the transition body only for an event not yet "
+         "cancelled and cancels the event on its error; leave_<state> reaches the task transition only after both hook phases without a hook "
+         "error; RpcServer.ControlEnvironment answers a failed transition with an error whatever becomes of the GO_ERROR that follows. Three "
+         "genuine defects were found here and repaired by fix: commits (API error swallowed by a successful GO_ERROR; nothing to command failing "
+         "or hanging; a single non-critical target failing the transition).",
+         "Not under contract: the START/STOP/RESET Transition.do bodies beyond their message, the DEPLOY wait loop, executors, Mesos delivery, "
+         "real timeouts. The command queue's answer is an unconstrained value at the task manager (its shape is proved in controlcommands).",
          "DESIGN.md §6 C02"),
  "C04": ("Proof obligations: Task.isLocked/IsLocked/IsClaimable are the ownership predicate (all ids set and a parent role); releaseTask refuses "
          "a task owned by another environment leaving it untouched, otherwise clears the owner, and writes nothing but that task's parent link "
          "(frame obligation); the filters of Cleanup and KillTasks accept only unowned tasks and exactly the filtered list reaches doKillTasks; "
          "Tasks.Filtered returns only accepted elements of its input (loop invariants over a ghost verdict map); CreateEnvironment registers the "
          "environment only when every needed detector is absent from the detectors active elsewhere (map-range loop invariant, proved at the "
-         "insertion site).",
+         "insertion site); Manager.GetActiveDetectors is the union over every environment with a workflow, whatever its state; doKillTasks prunes the "
+         "roster by identity against the requested set only; acquireTasks claims an existing task at most once per request and releases its "
+         "deployment lock exactly when it took it (a genuine defect - unlock of an unlocked mutex, a fatal error that ends the control of every "
+         "other environment - repaired by a fix: commit).",
          "Time-of-check/time-of-use between filter and kill, and between the detector query and the registration of two concurrent creations, are "
          "schedule questions this technique does not decide. acquireTasks' claiming logic and doKillTasks' roster arithmetic are not yet under "
          "contract. GetActiveDetectors results assumed fresh maps; parentRole.GetEnvironmentId an uninterpreted function of the role.",
